@@ -252,7 +252,11 @@ theorem StepR.thQ {ρ Q sh th o} (h : StepR sh th o) (hok : ThOK th) (hs : ThS t
     refine ⟨⟨?_, by simp [pcReg], by simp [hj], by simp, by simp [hj], ?_⟩, by simp⟩
     · simp only [List.mem_singleton, forall_eq]; exact newFrame_frQ hregs _ _ _
     · intro op hop; exact prog op (by simp [hp, hop])
-  case lock r a f fs hpc hfr hfree =>
+  case lockDeadSync r a f fs hpc hfr hj hfree hl hsh =>
+    exact ⟨Shape.thQ (hsh.q (fr f (by simp [hfr])).rest) (hok.lock hpc hfr).2 (hi'.toSnap hfr), by simp [hsh.new_nil]⟩
+  case lockDeadJob r a j f hpc hj hfr hfree hl =>
+    exact ⟨⟨by simp, by simp [pcReg], job, by simp, by simp, prog⟩, by simp⟩
+  case lock r a f fs hpc hfr hfree hl =>
     have hr := hpcr r f fs (by simp [hpc, pcReg]) hfr
     rw [hfr] at fr chain jobB
     simp only [List.forall_mem_cons] at fr jobB
@@ -354,6 +358,7 @@ theorem StepR.regsQ {ρ sh th o} (h : StepR sh th o) (hp : ∀ op ∈ th.prog, R
   case claimed hsh => exact .inl ⟨by rw [hsh.regs_eq.1]; exact fun _ h => h, hsh.regs_eq.2⟩
   case spawn hsh => exact .inl ⟨by simp only; rw [hsh.regs_eq.1]; exact fun _ h => h, hsh.regs_eq.2⟩
   case exit hsh => exact .inl ⟨by rw [hsh.regs_eq.1]; exact fun _ h => h, hsh.regs_eq.2⟩
+  case lockDeadSync hsh => exact .inl ⟨by rw [hsh.regs_eq.1]; exact fun _ h => h, hsh.regs_eq.2⟩
   all_goals exact .inl ⟨by simp, by simp⟩
 
 /-- the provenance invariant: `all` lists every registration ever created -/
